@@ -42,7 +42,8 @@ ASSUMPTIONS = [
 ]
 REQUIRED = {"schedules_one_preemption": 8000, "preempted_inside_tick_lock": 8000, "request_ran_interleaved": 8000,
             "serial_pairs": 250, "oracle_comparisons": 10000, "yield_points_seen": 500000,
-            "schedules_two_preemptions": 2000, "schedules_two_requests": 100, "request_blocked_on_lock": 300}
+            "schedules_two_preemptions": 2000, "schedules_two_requests": 100, "request_blocked_on_lock": 300,
+            "lost_request_checks": 8}
 EXHAUSTIVE_ALL = False
 
 UUID_RE = re.compile(r"[0-9a-f]{8}-[0-9a-f]{4}-[0-9a-f]{4}-[0-9a-f]{4}-[0-9a-f]{12}")
@@ -131,7 +132,7 @@ def plan(tier, seed):
         b = gen_bases[rnd.randrange(len(gen_bases))]
         triples.append({"base": b, "k": rnd.choice(b["ticks"]), "kinds": list(pair)})
     shards = 16 if tier == "quick" else 48
-    out = [{"seed": seed * 1000003 + s, "tier": tier, "cases": []} for s in range(shards)]
+    out = [{"seed": seed * 1000003 + s, "tier": tier, "cases": [], "lost": s == 0} for s in range(shards)]
     # heavy kinds (edits) spread evenly: round robin over a stable order
     for n, t in enumerate(triples):
         out[n % shards]["cases"].append(t)
@@ -351,12 +352,12 @@ def overlap_info(sched, names):
 
 
 def classify(kinds, info):
-    """Narrow classifier: names the unlocked entry point, i.e. the kind of the request that executed inside the tick's
-    locked region without ever taking engine._lock. Several such requests of different entry points, or none -> None."""
-    mechs = {mech_for(kind) for n, kind in enumerate(kinds) if info["overlap"].get(f"T{n + 2}")}
-    if len(mechs) == 1:
-        return mechs.pop()
-    return None
+    """Narrow classifier: names the unlocked entry point(s), i.e. the kind of every request that executed inside the
+    tick's locked region without ever taking engine._lock. One key per distinct entry point (a two-request schedule in
+    which two different unlocked entry points overlapped the tick is reported under both, so that a new unlocked entry
+    point is never hidden behind a listed one); none -> [None]."""
+    mechs = sorted({mech_for(kind) for n, kind in enumerate(kinds) if info["overlap"].get(f"T{n + 2}")} - {None})
+    return mechs or [None]
 
 
 def check_triple(t, res: Result, rnd: random.Random, tier: str, lengths: dict):
@@ -434,9 +435,9 @@ def check_triple(t, res: Result, rnd: random.Random, tier: str, lengths: dict):
                 viol = (f"outcome equals no serial order; nearest serial order {list(serial)[best]} differs in "
                         f"{diffs[best]}: {f}: interleaved={str(o[f])[:260]} serial={str(allowed[best][f])[:260]}")
         if viol:
-            mech = classify(kinds, info)
             where = [(s[0], s[1], s[4], "lock held by " + str(s[3])) for s in info["switches"]]
-            res.violation(mech, f"{b['name']} tick {k} request {info['descs']} schedule {where}: {viol}", case)
+            for mech in classify(kinds, info):
+                res.violation(mech, f"{b['name']} tick {k} request {info['descs']} schedule {where}: {viol}", case)
             res.count("divergent_schedules")
             for kind in kinds:
                 res.count("divergent_with_" + kind.replace(":", "_"))
@@ -480,10 +481,61 @@ def check_triple(t, res: Result, rnd: random.Random, tier: str, lengths: dict):
             judge(r, sw, f"i1={i1},i2={i2}", fin)
 
 
+LOST_CASES = [
+    # (base name, tick before which both requests arrive back to back, first request, second request, expected effect)
+    ("stopped_idle", 2, "ctl:Start", "set_method_first", "started"),
+    ("marks_long_wait", 5, "ctl:Other", "edit_append", "cmd:Other"),
+    ("marks_long_wait", 5, "ctl:Pause", "edit_append", "paused"),
+    ("watch_waiting", 4, "ctl:Hold", "edit_append", "holding"),
+]
+
+
+def check_lost(res: Result):
+    """'None lost', serial form (no interleaving needed): a user command that was accepted and is still queued when a
+    set_method arrives before the next tick must still take effect. Control: the same two requests in the other order."""
+    for bname, k, r1, r2, expect in LOST_CASES:
+        b = next(x for x in CORPUS if x["name"] == bname)
+        for order in ((r1, r2), (r2, r1)):
+            base = Base(b, k)
+            try:
+                e = base.rig.e
+                replies = []
+                cm_before = e._command_manager
+                queued_then_dropped = False
+                for kind in order:
+                    fn, _d = base.request_fn(kind)
+                    replies.append(_wrap_request(fn)())
+                    if kind == r1:
+                        cm_before = e._command_manager
+                    elif order[0] == r1:
+                        names_old = [r.name for r in list(cm_before.cmd_queue.queue)]
+                        cm_new = e._command_manager
+                        names_new = [r.name for r in list(cm_new.cmd_queue.queue)] + [r.name for r in cm_new.cmd_executing]
+                        queued_then_dropped = (cm_new is not cm_before and r1[4:] in names_old and r1[4:] not in names_new)
+                base.finish(k + 60)
+                o = base.outcome()
+                ok = {"started": o["run_state"][2] and o["run_state"][6],
+                      "paused": o["run_state"][3], "holding": o["run_state"][4],
+                      "cmd:Other": "Other" in o["cmds"]}[expect]
+                res.count("lost_request_checks")
+                res.case(("lost", bname, order), sample={"base": bname, "k": k, "requests": list(order), "replies": replies,
+                                                         "run_state": o["run_state"], "cmds": o["cmds"]})
+                if all(r[0] == "ok" for r in replies) and not ok:
+                    mech = "C40.queued_request_dropped_by_interpreter_reset" if queued_then_dropped else None
+                    res.violation(mech, f"{bname}: requests {list(order)} arrive back to back before tick {k}, both are "
+                                  f"accepted, but the effect '{expect}' of {r1} never appears (run_state={o['run_state']}, "
+                                  f"cmds={o['cmds']}); queued request dropped with the replaced CommandManager: "
+                                  f"{queued_then_dropped}", {"lost": [bname, k, list(order), expect]})
+            finally:
+                base.close()
+
+
 def run_shard(spec):
     res = Result()
     rnd = random.Random(spec["seed"])
     lengths: dict = {}
+    if spec.get("lost"):
+        check_lost(res)
     for t in spec["cases"]:
         check_triple(t, res, rnd, spec.get("tier", "quick"), lengths)
     res.exhaustive_parts.append(
@@ -498,6 +550,9 @@ def run_shard(spec):
 
 def replay(case):
     res = Result()
+    if "lost" in case:
+        check_lost(res)
+        return res
     b, k, kinds = case["base"], case["k"], case["kinds"]
     names = ["T1"] + [f"T{n + 2}" for n in range(len(kinds))]
     import itertools
@@ -514,6 +569,7 @@ def replay(case):
             print("   ", f, "interleaved:", str(o[f])[:300])
             print("   ", " " * len(f), "serial     :", str(a[f])[:300])
     if o["hang"] or o["thread_exc"] or o not in list(allowed.values()):
-        res.violation(classify(kinds, r["info"]), "outcome equals no serial order / hang / exception", case)
+        for mech in classify(kinds, r["info"]):
+            res.violation(mech, "outcome equals no serial order / hang / exception", case)
     res.case("replay")
     return res
